@@ -42,11 +42,11 @@ func init() {
 			"int64/bool oracle = applyBuiltin in ref.go (wrapping left folds, zero-divisor errors, comparisons, boolean folds)",
 			"open known finding: and/or whose operator is bypassed by the evaluator's short-circuit jump (single boolean operand; non-boolean operand with a deciding or last boolean operand) return a boolean instead of an error",
 		},
-		NumCases: func(tier string) int { return len(c18Cases()) * 4 },
+		NumCases: func(tier string) int { return len(c18Cases()) * 5 },
 		Run:      c18Run,
 		Floors: func(m *Merged, tier string) []string {
 			var u []string
-			for _, c := range []string{"wrong_type_cases", "wrong_count_cases", "zero_divisor_cases", "extreme_cases", "relations_checked", "alias_comparisons", "folded_cases", "variable_cases"} {
+			for _, c := range []string{"wrong_type_cases", "wrong_count_cases", "zero_divisor_cases", "extreme_cases", "relations_checked", "alias_comparisons", "folded_cases", "variable_cases", "composition_cases"} {
 				if m.C(c) == 0 {
 					u = append(u, c+" = 0")
 				}
@@ -199,8 +199,123 @@ func c18Run(w *W, idx int) {
 				c18Eval(w, r, c.op, args)
 			}
 		}
-	default:
+	case 3:
 		c18Relations(w, r, c)
+	default:
+		c18Compositions(w, r, c)
+	}
+}
+
+// c18Compositions: the operator nested inside / around every other operator of its family (two levels),
+// all truth assignments resp. extreme values, every optimization subset: folds must compose.
+func c18Compositions(w *W, r *rand.Rand, c c18Case) {
+	if c.count != 2 && c.count != 3 {
+		return
+	}
+	var family []string
+	var dom []interface{}
+	switch {
+	case contains(c18BoolOps, c.op) || c.op == "eq" || c.op == "ne":
+		family = []string{"and", "or", "xor", "not", "eq", "ne"}
+		dom = []interface{}{true, false}
+	case c.op == "between" || contains([]string{"gt", "lt", "ge", "le"}, c.op):
+		return
+	default:
+		family = []string{"add", "sub", "mul", "div", "mod"}
+		dom = c18Domain("add")
+	}
+	ty := TBool
+	if len(dom) > 2 {
+		ty = TInt
+	}
+	arity := func(op string) int {
+		switch op {
+		case "not":
+			return 1
+		case "ne":
+			return 2
+		}
+		return c.count
+	}
+	for _, other := range family {
+		for _, outerIsC := range []bool{true, false} {
+			outer, inner := c.op, other
+			if !outerIsC {
+				outer, inner = other, c.op
+			}
+			no, ni := arity(outer), arity(inner)
+			for pos := 0; pos < no; pos++ {
+				// build (outer x.. (inner y..) x..)
+				nvars := no - 1 + ni
+				names := make([]string, nvars)
+				for i := range names {
+					names[i] = fmt.Sprintf("v%d", i)
+				}
+				mk := func(asVars bool, vals []interface{}) *Node {
+					k := 0
+					leaf := func() *Node {
+						defer func() { k++ }()
+						if asVars {
+							return Var(names[k], ty)
+						}
+						return Lit(vals[k])
+					}
+					och := make([]*Node, no)
+					for i := range och {
+						if i == pos {
+							ich := make([]*Node, ni)
+							for j := range ich {
+								ich[j] = leaf()
+							}
+							och[i] = Op(aliasesOf[inner][r.Intn(len(aliasesOf[inner]))], ty, ich...)
+						} else {
+							och[i] = leaf()
+						}
+					}
+					return Op(aliasesOf[outer][r.Intn(len(aliasesOf[outer]))], ty, och...)
+				}
+				total := ipow(len(dom), nvars)
+				step := 1
+				if total > 128 {
+					step = total / 128
+				}
+				for t := r.Intn(step); t < total; t += step {
+					vals := make([]interface{}, nvars)
+					x := t
+					for i := range vals {
+						vals[i] = dom[x%len(dom)]
+						x /= len(dom)
+					}
+					b := Binding{Vals: map[string]interface{}{}}
+					for i, n := range names {
+						b.Vals[n] = vals[i]
+					}
+					for _, asVars := range []bool{true, false} {
+						tree := mk(asVars, vals)
+						want, wantErr := refEnv(b).Eval(tree)
+						src := tree.Prefix()
+						for _, opts := range []OptSet{OptNone, OptAll, OptRN, OptCF | OptFE} {
+							cfg := CaseCfg{Opts: opts}
+							if asVars {
+								cfg.VarNames = names
+							}
+							e, co := compileGuard(buildConfig(cfg, nil), src)
+							w.Evals++
+							if co.Err != nil || co.Panic != nil {
+								w.Fail("compile-rejects/composition", "Compile failed on %s: %v %v", src, co.Err, co.Panic)
+								continue
+							}
+							o, _ := callExpr(e, CallEval, fetcherFor(b, nil), nil, false)
+							w.Evals++
+							w.Inc("composition_cases")
+							if d := sameOutcome(o, want, wantErr); d != "" {
+								w.Fail("algebra/composition/"+outer+"-over-"+inner, "%s\nsource: %s\nbinding: %s\noptions: %s", d, src, b, opts)
+							}
+						}
+					}
+				}
+			}
+		}
 	}
 }
 
